@@ -73,6 +73,10 @@ Fixpoint core_expr (e : expr) : bool :=
   | EUnary _ _ x => core_expr x
   | EBinary _ l _ r => core_expr l && core_expr r
   | EInSuper _ x _ => core_expr x
+  | EError _ x | EImport _ x | EImportStr _ x | EImportBin _ x => core_expr x
+  | EIf _ c t o => core_expr c && core_expr t && match o with Some x => core_expr x | None => true end
+  | EAssert _ (MkAssert _ c m) body =>
+      core_expr c && match m with Some x => core_expr x | None => true end && core_expr body
   | _ => false
   end.
 
@@ -85,50 +89,107 @@ Proof.
   - apply andb_true_iff in H as [H1 H2]. destruct (IHe1 H1) as (c & r & E & Hc).
     cbn [print_expr]. rewrite E. eexists; eexists; split; [reflexivity|exact Hc].
   - destruct op; eexists; eexists; split; reflexivity.
+  - destruct a. eexists; eexists; split; reflexivity.
   - destruct (IHe H) as (c & r & E & Hc). cbn [print_expr]. rewrite E. eexists; eexists; split; [reflexivity|exact Hc].
 Qed.
 
-Definition Bform (k : nat) (e : expr) (c : nat) : Prop :=
-  forall pexpr lf f stk fo r x tf, nosfx fo = true -> noop_above k fo = true ->
+(* follow-token conditions *)
+Definition stopper (c : token) : bool := nosfx c && forallb (fun l => opmiss l c) (seq 0 10).
+Definition fcond (k : nat) (last : bool) (fo : token) : Prop :=
+  if last then stopper fo = true else nosfx fo = true /\ noop_above k fo = true.
+Definition else_ok (e : expr) (fo : token) : Prop := dangling e = true -> is_simple KElse fo = false.
+
+Lemma stopper_nosfx c : stopper c = true -> nosfx c = true.
+Proof. unfold stopper. intros H. apply andb_true_iff in H as [H _]. exact H. Qed.
+Lemma stopper_noop c k : stopper c = true -> noop_above k c = true.
+Proof.
+  unfold stopper, noop_above. intros H. apply andb_true_iff in H as [_ H].
+  rewrite forallb_forall in *. intros l Hl. apply H. apply in_seq in Hl. apply in_seq. lia.
+Qed.
+Lemma stopper_op0 c : stopper c = true -> opmiss 0 c = true.
+Proof.
+  unfold stopper. intros H. apply andb_true_iff in H as [_ H]. rewrite forallb_forall in H.
+  apply H. apply in_seq. lia.
+Qed.
+Lemma fcond_nosfx k last fo : fcond k last fo -> nosfx fo = true.
+Proof. destruct last; cbn; [apply stopper_nosfx|tauto]. Qed.
+Lemma fcond_noop k last fo : fcond k last fo -> noop_above k fo = true.
+Proof. destruct last; cbn; [apply stopper_noop|tauto]. Qed.
+
+(* what a recursive call self.parse_expr() must deliver for the sub-expressions it is used on *)
+Definition pexpr_ok (pexpr : P expr) (L : nat) : Prop :=
+  forall y fo r, core_expr y = true -> wp y = true -> (List.length (print_expr y) < L)%nat ->
+    stopper fo = true -> else_ok y fo ->
+    run pexpr (print_expr y ++ fo :: r) (strip_spans y) (fo :: r).
+
+Lemma pexpr_ok_mono pexpr L L' : pexpr_ok pexpr L -> (L' <= L)%nat -> pexpr_ok pexpr L'.
+Proof. intros H HL y fo r Hc Hw Hl. apply H; [exact Hc|exact Hw|lia]. Qed.
+
+Definition Bform (k : nat) (last : bool) (e : expr) (c : nat) : Prop :=
+  forall pexpr lf f stk fo r x tf,
+    pexpr_ok pexpr (List.length (print_expr e)) -> (List.length (print_expr e) <= lf)%nat ->
+    fcond k last fo -> else_ok e fo ->
     run (pe_loop T pexpr (S lf) f (exit_ k (strip_spans e)) stk) (fo :: r) x tf ->
     run (pe_loop T pexpr (S lf) (c + f) (enter k) stk) (print_expr e ++ fo :: r) x tf.
 
-Definition Uform (e : expr) (c : nat) : Prop :=
-  forall pexpr lf f stk fo r x tf, nosfx fo = true ->
+Definition Uform (last : bool) (e : expr) (c : nat) : Prop :=
+  forall pexpr lf f stk fo r x tf,
+    pexpr_ok pexpr (List.length (print_expr e)) -> (List.length (print_expr e) <= lf)%nat ->
+    nosfx fo = true -> (last = true -> stopper fo = true) ->
+    else_ok e fo ->
     run (pe_loop T pexpr (S lf) f (StParsed (strip_spans e)) stk) (fo :: r) x tf ->
     run (pe_loop T pexpr (S lf) (c + f) StUnary stk) (print_expr e ++ fo :: r) x tf.
 
 Ltac fuel_as X :=
   match goal with |- run (pe_loop _ _ _ ?F _ _) _ _ _ => replace F with X by lia end.
 
-Lemma wrap k e c : (k <= 10)%nat -> Uform e c -> Bform k e ((10 - k) + c + steps_fin k).
+Lemma wrap k last e c : (k <= 10)%nat -> Uform last e c -> Bform k last e ((10 - k) + c + steps_fin k).
 Proof.
-  intros Hk HU pexpr lf f stk fo r x tf Hn Ho H.
+  intros Hk HU pexpr lf f stk fo r x tf Hp Hlf Hfc Hel H.
   fuel_as ((10 - k) + (c + (steps_fin k + f)))%nat.
   apply descend; [lia|]. replace (k + (10 - k))%nat with 10%nat by lia.
   change (enter 10) with StUnary.
-  apply HU; [exact Hn|]. apply finish; [exact Hk|exact Ho|exact H].
+  apply HU; [exact Hp|exact Hlf|apply (fcond_nosfx k last); exact Hfc|intros ->; exact Hfc|exact Hel|].
+  apply finish; [exact Hk|apply (fcond_noop k last); exact Hfc|exact H].
 Qed.
 
 Lemma atom_unary_miss e c : atom_tok e = Some c -> all_miss (pt_unary T) c = true.
 Proof. destruct e; cbn; intros H; try discriminate; injection H as <-; try destruct b; reflexivity. Qed.
 
-Lemma U_atom e c : atom_tok e = Some c -> Uform e 3.
+Lemma U_atom last e c : atom_tok e = Some c -> Uform last e 3.
 Proof.
-  intros Ha pexpr lf f stk fo r x tf Hn H. rewrite (atom_print e c Ha). cbn [app Nat.add].
+  intros Ha pexpr lf f stk fo r x tf _ _ Hn _ _ H. rewrite (atom_print e c Ha). cbn [app Nat.add].
   apply pl_unary_miss; [apply (atom_unary_miss e); exact Ha|].
   apply (pl_primary_atom pexpr lf _ e); [exact Ha|discriminate|].
   apply pl_parsed_suffix_none; [exact Hn|exact H].
 Qed.
 
+Lemma U_prefix e x kw (mk : span -> expr -> expr) :
+  print_expr e = sim kw :: print_expr x -> strip_spans e = mk sp0 (strip_spans x) ->
+  dangling e = dangling x -> all_miss (pt_unary T) (sim kw) = true ->
+  (forall pexpr lf f stk t (a : expr) t', t <> [] ->
+     run (y <- prefix_form pexpr sp0 mk ;; pe_loop T pexpr (S lf) f (StParsed y) stk) t a t' ->
+     run (pe_loop T pexpr (S lf) (S f) StPrimary stk) (sim kw :: t) a t') ->
+  core_expr x = true -> wpx 0 true x = true -> Uform true e 3.
+Proof.
+  intros Hpr Hst Hdg Hum Hpl Hc Hw pexpr lf f stk fo r v tf Hp Hlf Hn Hs Hel H.
+  rewrite Hpr. rewrite Hpr in Hp. cbn [app Nat.add List.length] in *.
+  apply pl_unary_miss; [exact Hum|]. apply Hpl; [auto with rt|].
+  eapply run_bind.
+  - unfold prefix_form. eapply run_bind.
+    + apply Hp; [exact Hc|exact Hw|lia|apply Hs; reflexivity|intros Hd; apply Hel; rewrite Hdg; exact Hd].
+    + rewrite strip_span0. eapply run_bind; [apply run_mk_span0|apply run_ret].
+  - rewrite Hst in H. apply pl_parsed_suffix_none; [exact Hn|exact H].
+Qed.
+
 Lemma steps_fin_le k : (steps_fin k <= 19)%nat.
 Proof. unfold steps_fin. destruct (10 - k)%nat eqn:E; lia. Qed.
 
-Ltac len_tac := cbn [print_expr]; rewrite ?app_length; cbn [List.length]; rewrite ?app_length; cbn [List.length]; lia.
+Ltac len_tac := cbn [print_expr print_assert]; repeat (progress (repeat rewrite app_length; cbn [List.length])); lia.
 
 Theorem rt_main : forall n e, (esize e < n)%nat -> core_expr e = true ->
   forall k last, (k <= 10)%nat -> wpx k last e = true ->
-  exists c, (c <= 40 * List.length (print_expr e))%nat /\ Bform k e c.
+  exists c, (c <= 40 * List.length (print_expr e))%nat /\ Bform k last e c.
 Proof.
   induction n as [|n IH]; [intros; lia|].
   intros e Hsz Hcore k last Hk Hwp.
@@ -141,17 +202,51 @@ Proof.
     destruct (IH e ltac:(lia) Hcore 0%nat true ltac:(lia) Hwp) as (cx & Hbx & Hx).
     exists ((10 - k) + (S (S (cx + 3))) + steps_fin k)%nat. split; [len_tac|].
     apply wrap; [exact Hk|].
-    intros pexpr lf f stk fo r x tf Hn H.
+    intros pexpr lf f stk fo r x tf Hp Hlf Hn _ _ H.
     cbn [print_expr strip_spans app]. rewrite <- app_assoc. cbn [app Nat.add].
     apply pl_unary_miss; [reflexivity|].
     apply pl_primary_paren; [auto with rt|].
     change (init_state T) with (enter 0).
     fuel_as (cx + (3 + f))%nat.
-    apply Hx; [reflexivity|reflexivity|].
+    apply Hx; [eapply pexpr_ok_mono; [exact Hp|len_tac]| revert Hlf; len_tac |reflexivity|intros _; reflexivity|].
     change (exit_ 0 (strip_spans e)) with (StBinaryRhs (kind 0) (strip_spans e)). cbn [Nat.add].
     apply pl_rhs_none; [reflexivity|].
     apply pl_parsed_paren; [discriminate|].
     apply pl_parsed_suffix_none; [exact Hn|exact H].
+  - (* EIf *)
+    cbn [esize] in Hsz.
+    assert (Hlast : last = true) by (cbn [wpx] in Hwp; destruct e3, last; cbn in Hwp; congruence).
+    subst last.
+    exists ((10 - k) + 3 + steps_fin k)%nat. split; [len_tac|].
+    apply wrap; [exact Hk|].
+    intros pexpr lf f stk fo r v tf Hp Hlf Hn Hs Hel H.
+    specialize (Hs eq_refl).
+    apply andb_true_iff in Hcore as [Hcore Hc3]. apply andb_true_iff in Hcore as [Hc1 Hc2].
+    destruct e3 as [e3|]; cbn [wpx andb] in Hwp.
+    + apply andb_true_iff in Hwp as [Hwp Hw3]. apply andb_true_iff in Hwp as [Hwp Hdg].
+      apply andb_true_iff in Hwp as [Hw1 Hw2]. apply negb_true_iff in Hdg.
+      cbn [print_expr strip_spans option_map app Nat.add]. rewrite <- !app_assoc. cbn [app].
+      apply pl_unary_miss; [reflexivity|]. apply pl_primary_if; [auto with rt|].
+      eapply run_bind; [apply Hp; [exact Hc1|exact Hw1|len_tac|reflexivity|intros _; reflexivity]|].
+      eapply run_bind; [apply run_expect_hit; [reflexivity|auto with rt]|].
+      rewrite <- app_assoc. cbn [app].
+      eapply run_bind; [apply Hp; [exact Hc2|exact Hw2|len_tac|reflexivity|intros Hd; congruence]|].
+      eapply run_bind; [apply run_eat_hit; [reflexivity|auto with rt]|].
+      cbn [opt_expr].
+      eapply run_bind; [eapply run_bind; [apply Hp; [exact Hc3|exact Hw3|len_tac|exact Hs|exact Hel]|apply run_ret]|].
+      cbv beta iota; rewrite ?strip_span0. eapply run_bind; [apply run_mk_span0|].
+      apply pl_parsed_suffix_none; [exact Hn|exact H].
+    + apply andb_true_iff in Hwp as [Hw1 Hw2].
+      cbn [print_expr strip_spans option_map app Nat.add]. rewrite <- !app_assoc. cbn [app].
+      rewrite app_nil_r.
+      apply pl_unary_miss; [reflexivity|]. apply pl_primary_if; [auto with rt|].
+      eapply run_bind; [apply Hp; [exact Hc1|exact Hw1|len_tac|reflexivity|intros _; reflexivity]|].
+      eapply run_bind; [apply run_expect_hit; [reflexivity|auto with rt]|].
+      eapply run_bind; [apply Hp; [exact Hc2|exact Hw2|len_tac|exact Hs|intros _; apply Hel; reflexivity]|].
+      eapply run_bind; [apply run_eat_miss; apply Hel; reflexivity|].
+      cbn [opt_expr]. eapply run_bind; [apply run_ret|].
+      cbv beta iota; rewrite ?strip_span0. eapply run_bind; [apply run_mk_span0|].
+      apply pl_parsed_suffix_none; [exact Hn|exact H].
   - (* EBinary *)
     cbn [wpx] in Hwp. cbn [esize] in Hsz.
     apply andb_true_iff in Hcore as [Hc1 Hc2].
@@ -162,20 +257,23 @@ Proof.
     destruct (IH e2 ltac:(lia) Hc2 (S j) last ltac:(lia) Hw2) as (c2 & Hb2 & H2).
     exists ((j - k) + (c1 + (1 + (c2 + ((if (S j <? 10)%nat then 2 else 1) + (2 * (j - k)))))))%nat.
     split; [destruct (S j <? 10)%nat; len_tac|].
-    intros pexpr lf f stk fo r x tf Hn Ho H.
+    intros pexpr lf f stk fo r x tf Hp Hlf Hfc Hel H.
+    pose proof (fcond_nosfx _ _ _ Hfc) as Hn. pose proof (fcond_noop _ _ _ Hfc) as Ho.
     cbn [print_expr strip_spans]. rewrite <- app_assoc. cbn [app].
     fuel_as ((j - k) + (c1 + (1 + (c2 + ((if (S j <? 10)%nat then 2 else 1) + (2 * (j - k) + f))))))%nat.
-    unfold enter at 1. replace (k <? 10)%nat with true by (symmetry; apply Nat.ltb_lt; lia).
     assert (Ek : enter k = StBinary (kind k)).
     { unfold enter. replace (k <? 10)%nat with true by (symmetry; apply Nat.ltb_lt; lia). reflexivity. }
-    rewrite <- Ek. apply descend; [lia|]. replace (k + (j - k))%nat with j by lia.
-    apply H1; [apply optok_nosfx|apply optok_noop|].
+    apply descend; [lia|]. replace (k + (j - k))%nat with j by lia.
+    apply H1; [eapply pexpr_ok_mono; [exact Hp|len_tac]| revert Hlf; len_tac
+              |split; [apply optok_nosfx|apply optok_noop]
+              |intros _; destruct op; reflexivity|].
     unfold exit_. replace (j <? 10)%nat with true by (symmetry; apply Nat.ltb_lt; lia).
     cbn [Nat.add].
     destruct (core_head e2 Hc2) as (ch & rh & Eh & Hh).
     apply pl_rhs_op; [auto with rt| rewrite Eh; exact Hh |].
-    apply H2; [exact Hn|apply (noop_above_mono k); [exact Ho|lia]|].
-    (* r parsed at level j+1: come back to level j *)
+    apply H2; [eapply pexpr_ok_mono; [exact Hp|len_tac]| revert Hlf; len_tac
+              | destruct last; cbn in Hfc |- *; [exact Hfc|split; [tauto|apply (noop_above_mono k); [tauto|lia]]]
+              | exact Hel |].
     assert (Hback : run (pe_loop T pexpr (S lf) (1 + (2 * (j - k) + f)) (StParsed (strip_spans e2))
                          (SiBinaryRhs (kind j) (strip_spans e1) op :: lhs_up k (j - k) ++ stk)) (fo :: r) x tf).
     { cbn [Nat.add]. apply pl_parsed_rhs; [apply strip_span0|apply strip_span0|].
@@ -192,25 +290,91 @@ Proof.
     apply andb_true_iff in Hwp as [_ Hwx].
     destruct (IH e ltac:(lia) Hcore 10%nat last ltac:(lia) Hwx) as (cx & Hbx & Hx).
     exists ((10 - k) + (S (cx + 1)) + steps_fin k)%nat. split; [len_tac|].
-    apply wrap; [exact Hk|].
-    intros pexpr lf f stk fo r x tf Hn H.
+    intros pexpr lf f stk fo r x tf Hp Hlf Hfc Hel H.
+    pose proof (fcond_nosfx _ _ _ Hfc) as Hn. pose proof (fcond_noop _ _ _ Hfc) as Ho.
+    fuel_as ((10 - k) + (S (cx + (1 + (steps_fin k + f)))))%nat.
+    apply descend; [lia|]. replace (k + (10 - k))%nat with 10%nat by lia.
+    change (enter 10) with StUnary.
     cbn [print_expr strip_spans app Nat.add].
     apply pl_unary_hit; [auto with rt|].
     change StUnary with (enter 10).
-    fuel_as (cx + (1 + f))%nat.
-    apply Hx; [exact Hn|reflexivity|].
+    apply Hx; [eapply pexpr_ok_mono; [exact Hp|len_tac]| revert Hlf; len_tac
+              | destruct last; cbn in Hfc |- *; [exact Hfc|split; [tauto|reflexivity]] | exact Hel |].
     change (exit_ 10 (strip_spans e)) with (StParsed (strip_spans e)). cbn [Nat.add].
-    apply pl_parsed_unary; [apply strip_span0|exact H].
+    apply pl_parsed_unary; [apply strip_span0|].
+    apply finish; [exact Hk|exact Ho|exact H].
+  - (* EAssert *)
+    cbn [esize assert_size] in Hsz. destruct a as [asp ac am].
+    assert (Hlast : last = true) by (cbn [wpx] in Hwp; destruct last; cbn in Hwp; congruence).
+    subst last. cbn [wpx wp_assert andb] in Hwp.
+    apply andb_true_iff in Hwp as [Hwa Hwb]. apply andb_true_iff in Hwa as [Hw1 Hwm].
+    apply andb_true_iff in Hcore as [Hcore Hcb]. apply andb_true_iff in Hcore as [Hc1 Hcm].
+    exists ((10 - k) + 3 + steps_fin k)%nat. split; [len_tac|].
+    apply wrap; [exact Hk|].
+    intros pexpr lf f stk fo r v tf Hp Hlf Hn Hs Hel H.
+    specialize (Hs eq_refl).
+    destruct am as [em|]; cbn [opt_all] in Hwm.
+    + cbn [print_expr print_assert strip_spans strip_assert option_map app Nat.add].
+      repeat (progress (rewrite <- ?app_assoc; cbn [app])).
+      apply pl_unary_miss; [reflexivity|].
+      eapply pl_primary_assert; [auto with rt| |].
+      * eapply run_bind; [apply Hp; [exact Hc1|exact Hw1|len_tac|reflexivity|intros _; reflexivity]|].
+        eapply run_bind; [apply run_eat_hit; [reflexivity|auto with rt]|].
+        cbn [opt_expr].
+        eapply run_bind; [eapply run_bind; [apply Hp; [exact Hcm|exact Hwm|len_tac|reflexivity|intros _; reflexivity]|apply run_ret]|].
+        cbv beta iota; rewrite ?strip_span0. eapply run_bind; [apply run_mk_span0|apply run_ret].
+      * eapply run_bind; [apply run_expect_hit; [reflexivity|auto with rt]|].
+        eapply run_bind; [apply Hp; [exact Hcb|exact Hwb|len_tac|exact Hs|exact Hel]|].
+        cbv beta iota; rewrite ?strip_span0. eapply run_bind; [apply run_mk_span0|].
+        apply pl_parsed_suffix_none; [exact Hn|exact H].
+    + cbn [print_expr print_assert strip_spans strip_assert option_map app Nat.add].
+      rewrite app_nil_r. repeat (progress (rewrite <- ?app_assoc; cbn [app])).
+      apply pl_unary_miss; [reflexivity|].
+      eapply pl_primary_assert; [auto with rt| |].
+      * eapply run_bind; [apply Hp; [exact Hc1|exact Hw1|len_tac|reflexivity|intros _; reflexivity]|].
+        eapply run_bind; [apply run_eat_miss; reflexivity|].
+        cbn [opt_expr]. eapply run_bind; [apply run_ret|].
+        cbv beta iota; rewrite ?strip_span0. eapply run_bind; [apply run_mk_span0|apply run_ret].
+      * eapply run_bind; [apply run_expect_hit; [reflexivity|auto with rt]|].
+        eapply run_bind; [apply Hp; [exact Hcb|exact Hwb|len_tac|exact Hs|exact Hel]|].
+        cbv beta iota; rewrite ?strip_span0. eapply run_bind; [apply run_mk_span0|].
+        apply pl_parsed_suffix_none; [exact Hn|exact H].
+  - (* EImport *)
+    cbn [wpx] in Hwp. apply andb_true_iff in Hwp as [-> Hwx].
+    exists ((10 - k) + 3 + steps_fin k)%nat. split; [len_tac|].
+    apply wrap; [exact Hk|].
+    apply (U_prefix _ e KImport EImport); try reflexivity; try assumption.
+    intros; apply pl_primary_import; assumption.
+  - (* EImportStr *)
+    cbn [wpx] in Hwp. apply andb_true_iff in Hwp as [-> Hwx].
+    exists ((10 - k) + 3 + steps_fin k)%nat. split; [len_tac|].
+    apply wrap; [exact Hk|].
+    apply (U_prefix _ e KImportstr EImportStr); try reflexivity; try assumption.
+    intros; apply pl_primary_importstr; assumption.
+  - (* EImportBin *)
+    cbn [wpx] in Hwp. apply andb_true_iff in Hwp as [-> Hwx].
+    exists ((10 - k) + 3 + steps_fin k)%nat. split; [len_tac|].
+    apply wrap; [exact Hk|].
+    apply (U_prefix _ e KImportbin EImportBin); try reflexivity; try assumption.
+    intros; apply pl_primary_importbin; assumption.
+  - (* EError *)
+    cbn [wpx] in Hwp. apply andb_true_iff in Hwp as [-> Hwx].
+    exists ((10 - k) + 3 + steps_fin k)%nat. split; [len_tac|].
+    apply wrap; [exact Hk|].
+    apply (U_prefix _ e KError EError); try reflexivity; try assumption.
+    intros; apply pl_primary_error; assumption.
   - (* EInSuper *)
     cbn [wpx] in Hwp. cbn [esize] in Hsz.
     apply andb_true_iff in Hwp as [Hk6 Hwx]. apply Nat.leb_le in Hk6. unfold lv_ordcmp in *.
     destruct (IH e ltac:(lia) Hcore 6%nat false ltac:(lia) Hwx) as (cx & Hbx & Hx).
     exists ((6 - k) + (cx + (1 + (2 * (6 - k)))))%nat. split; [len_tac|].
-    intros pexpr lf f stk fo r x tf Hn Ho H.
+    intros pexpr lf f stk fo r x tf Hp Hlf Hfc Hel H.
+    pose proof (fcond_nosfx _ _ _ Hfc) as Hn. pose proof (fcond_noop _ _ _ Hfc) as Ho.
     cbn [print_expr strip_spans]. rewrite <- app_assoc. cbn [app].
     fuel_as ((6 - k) + (cx + (1 + (2 * (6 - k) + f))))%nat.
     apply descend; [lia|]. replace (k + (6 - k))%nat with 6%nat by lia.
-    apply Hx; [reflexivity|reflexivity|].
+    apply Hx; [eapply pexpr_ok_mono; [exact Hp|len_tac]| revert Hlf; len_tac
+              |split; reflexivity|intros _; reflexivity|].
     change (exit_ 6 (strip_spans e)) with (StBinaryRhs (kind 6) (strip_spans e)). cbn [Nat.add].
     apply pl_rhs_insuper; [apply strip_span0|exact Hn|].
     pose proof (ascend pexpr (S lf) (6 - k) k f (EInSuper sp0 (strip_spans e) sp0) stk fo r x tf
@@ -234,25 +398,37 @@ Proof.
   injection Ts as -> ->. reflexivity.
 Qed.
 
+(* self.parse_expr() with enough fuel parses every covered sub-expression *)
+Theorem parse_expr_ok : forall L y fuel fo r, (List.length (print_expr y) < L)%nat ->
+  core_expr y = true -> wp y = true -> (41 * List.length (print_expr y) + 3 <= fuel)%nat ->
+  stopper fo = true -> else_ok y fo ->
+  run (parse_expr T fuel) (print_expr y ++ fo :: r) (strip_spans y) (fo :: r).
+Proof.
+  induction L as [|L IH]; [intros; lia|].
+  intros y fuel fo r HL Hc Hw Hf Hs He. unfold wp in Hw.
+  destruct (rt_main (S (esize y)) y ltac:(lia) Hc 0%nat true ltac:(lia) Hw) as (c & Hb & HB).
+  destruct fuel as [|f0]; [lia|].
+  apply run_parse_expr.
+  assert (Hlf : exists lf, f0 = S lf /\ (List.length (print_expr y) <= lf)%nat).
+  { exists (f0 - 1)%nat. split; lia. }
+  destruct Hlf as (lf & Elf & Hlf). rewrite Elf at 2.
+  assert (Hg : exists g, f0 = (c + S (S g))%nat) by (exists (f0 - c - 2)%nat; lia).
+  destruct Hg as (g & Eg). rewrite Eg at 2.
+  change (init_state T) with (enter 0).
+  apply HB; [|exact Hlf|exact Hs|exact He|].
+  - intros z fo' r' Hcz Hwz Hlz Hsz Hez. apply (IH z f0 fo' r'); [lia|exact Hcz|exact Hwz|lia|exact Hsz|exact Hez].
+  - change (exit_ 0 (strip_spans y)) with (StBinaryRhs (kind 0) (strip_spans y)).
+    apply pl_rhs_none; [apply stopper_op0; exact Hs|]. apply pl_parsed_done.
+Qed.
+
 Theorem roundtrip_core : forall e, core_expr e = true -> wp e = true ->
   omap fst (parse T (print_tokens e)) = Ok (strip_spans e).
 Proof.
-  intros e Hc Hw. unfold wp in Hw.
-  destruct (rt_main (S (esize e)) e ltac:(lia) Hc 0%nat true ltac:(lia) Hw) as (c & Hb & HB).
+  intros e Hc Hw.
   unfold parse, print_tokens, default_fuel.
   destruct (core_head e Hc) as (c0 & r0 & Ep & _).
-  set (L := List.length (print_expr e ++ [eof_tok])).
-  assert (HL : L = S (List.length (print_expr e))) by (unfold L; rewrite app_length; cbn; lia).
-  assert (Hf : exists g, (64 * (L + 2))%nat = S (c + S (S g))) by (exists (64 * (L + 2) - c - 3)%nat; lia).
-  destruct Hf as (g & ->).
   assert (Et : print_expr e ++ [eof_tok] = c0 :: (r0 ++ [eof_tok])) by (rewrite Ep; reflexivity).
-  rewrite Et. change (omap fst (parse_fuel T (S (c + S (S g))) (c0 :: r0 ++ [eof_tok])) = Ok (strip_spans e)).
-  apply run_parse_root. rewrite <- Et.
-  apply run_parse_expr.
-  assert (Hlf : exists lf, (c + S (S g))%nat = S lf) by (exists (c + S g)%nat; lia).
-  destruct Hlf as (lf & Elf). rewrite Elf at 2. 
-  change (init_state T) with (enter 0).
-  apply HB; [reflexivity|reflexivity|].
-  change (exit_ 0 (strip_spans e)) with (StBinaryRhs (kind 0) (strip_spans e)).
-  apply pl_rhs_none; [reflexivity|]. apply pl_parsed_done.
+  rewrite Et. apply run_parse_root. rewrite <- Et.
+  apply (parse_expr_ok (S (List.length (print_expr e)))); [lia|exact Hc|exact Hw| |reflexivity|intros _; reflexivity].
+  rewrite app_length. cbn [List.length]. lia.
 Qed.
